@@ -256,6 +256,21 @@ def arity(plugin):
 def spec_verdict(case, variant):
     """What the property says about exit status: 'fail', 'ok' or None (the property does not say)."""
     conflict, duplicate = clashes(case)
+    if case.get("stream") == "chan":
+        # types that are assignable one way (chan int for <-chan int) are outside the property's domain: what is
+        # fixed is the conflict clause where sharing is impossible — a name used with a type list and LATER with
+        # a different one that cannot be passed for the first (4422487) must be rejected without flags
+        if variant != "-":
+            return None
+        calls = [(c["name"], case["types"][c["type"]]["go"]) for f in sorted(case["files"], key=lambda f: f["name"]) for c in f["calls"]]
+        for i in range(len(calls)):
+            if any(calls[k][0] == calls[i][0] for k in range(i)):
+                continue   # only the first call of a name is certain to have bound the name to its types
+            for j in range(i + 1, len(calls)):
+                (n1, t1), (n2, t2) = calls[i], calls[j]
+                if n1 == n2 and t1 != t2 and not (t2 == "chan int"):
+                    return "fail"
+        return None
     if variant == "-":
         return "fail" if (conflict or duplicate) else "ok"
     if variant == "a":
@@ -290,7 +305,7 @@ def compare_case(case, variant, obs, model, check_types=True):
     """Returns (spec_problem, corr_problem): strings or None."""
     spec = None
     corr = None
-    want = spec_verdict(case, variant) if case["stream"] in ("exhaustive", "exhaustive-arity", "exhaustive-repeat", "random", "imported", "pending") else None
+    want = spec_verdict(case, variant) if case["stream"] in ("exhaustive", "exhaustive-arity", "exhaustive-repeat", "random", "imported", "pending", "chan") else None
     if obs["class"] in ("timeout", "other", "panic"):
         spec = "goderive ended with %s (rc=%s): %s" % (obs["class"], obs["rc"], obs.get("stderr", "")[:300])
         return spec, corr
@@ -298,7 +313,9 @@ def compare_case(case, variant, obs, model, check_types=True):
     if want is not None and want != got:
         spec = "the property requires %s for flags %s (conflict, duplicate = %s), goderive: %s %s" % (
             want, variant, clashes(case), obs["class"], obs.get("stderr", "")[:200])
-    if obs["class"] == "ok":
+    if obs["class"] == "ok" and case.get("stream") == "chan":
+        pass  # outside C11's domain (assignable types share a function whose result type mentions the type)
+    elif obs["class"] == "ok":
         if obs.get("type_error"):
             spec = "run succeeded but the package does not type-check: " + obs["type_error"][:300]
         elif check_types and obs.get("calls_bad"):
